@@ -77,6 +77,7 @@ pub fn run(v: &serde_json::Value, rep: &mut Report) -> Result<(), String> {
     // applies (lemma_c11_listing_is_queue_order + from_snapshot hands out in listing order) and any later divergence
     // of the restored copy is a new violation, not the known finding KF-C11
     let mut twin_comparable = false;
+    let mut twin_spare = false;
     let generator = UuidGenerator::new(ns);
     // executable form of the PROVED queue contracts (pop = head of prio, push appends a ticket, remove leaves
     // tickets alone): the ticket list is modelled, the live orders are read back from the real level
@@ -179,7 +180,8 @@ pub fn run(v: &serde_json::Value, rep: &mut Report) -> Result<(), String> {
                     let b: Vec<(OrderId, u64)> = r2.transactions.as_vec().iter().map(|t| (t.maker_order_id, t.quantity)).collect();
                     if a != b || r2.remaining_quantity != r.remaining_quantity {
                         rep.violation("C11", "restore.same_makers_same_sequence", format!("step={step} original makers={a:?} restored makers={b:?}"));
-                        if twin_comparable { rep.violation("C11", "restore.same_trading_when_listing_is_queue_order", format!("step={step} timestamps increased strictly along the queue when the snapshot was taken (so the listing is the queue order), yet original makers={a:?} restored makers={b:?}")); }
+                        if twin_spare { rep.violation("C11", "restore.same_trading_despite_spare_tickets", format!("step={step} timestamps increased strictly along the queue, but the original carried spare tickets (left by a same-price amendment or a cancel) which the snapshot does not record: original makers={a:?} restored makers={b:?}")); }
+                        if twin_comparable { rep.violation("C11", "restore.same_trading_when_listing_is_queue_order", format!("step={step} timestamps increased strictly along the queue and no spare ticket existed when the snapshot was taken (same abstract state), yet original makers={a:?} restored makers={b:?}")); }
                     }
                 }
             }
@@ -274,7 +276,13 @@ pub fn run(v: &serde_json::Value, rep: &mut Report) -> Result<(), String> {
                     // carry strictly increasing timestamps.  It is evaluated on the queue model, NOT on the real listing,
                     // so that a listing that stops being sorted by timestamp cannot switch the clause off
                     let ts: Vec<u64> = seen.iter().map(|i| a[i].timestamp()).collect();
-                    twin_comparable = ts.windows(2).all(|w| w[0] < w[1]);
+                    let ts_increasing = ts.windows(2).all(|w| w[0] < w[1]);
+                    // ... and of its corollary (lemma_c11_same_abstract_state): no spare ticket - the ticket list is exactly the
+                    // queue order.  A same-price amendment or a cancel leaves tickets behind which a snapshot does not carry:
+                    // a divergence in that situation is the known finding KF-C11-b, not a new violation
+                    let no_spare = tickets.iter().copied().collect::<Vec<_>>() == seen;
+                    twin_comparable = ts_increasing && no_spare;
+                    twin_spare = ts_increasing && !no_spare;
                 }
                 if name == "restore" { tickets = level.iter_orders().iter().map(|o| o.id()).collect(); level = restored; } else { twin = Some((restored, UuidGenerator::new(ns))); }
             }
